@@ -88,6 +88,9 @@ theorem event_stream_identity_makes_no_call (cfg : Cfg) (h : cfg.neIdentity = tr
 theorem structural_equality_forces_equal_size (a b : Node) (h : beqN a b = true) : sizeN a = sizeN b :=
   beqN_sizeN a b h
 
+example : beqN (chainWithTrailingText 3) (chainWithTrailingText 3) = true ∧ beqN (chainWithTrailingText 3) (chainWithTrailingText 2) = false := by
+  decide
+
 /-- `<a>t<b><br/></b><p>x</p></a>`: a void tag, a tag left open when its sibling arrives -/
 def demoTree : Node :=
   .tag 1 0 true false [.str 2, .tag 2 0 true false [.tag 3 0 true true []], .tag 5 0 true false [.str 1]]
@@ -96,6 +99,9 @@ example : (eventStreamImpl unrepaired demoTree).1 =
 example : (eventStreamImpl unrepaired demoTree).2 = 2 ∧ (eventStreamImpl repaired demoTree).2 = 0 := by decide
 example : (eventStreamContentsImpl repaired demoTree).1 =
     [.string 1, .start 2, .empty 3, .end 2, .start 4, .string 5, .end 4] := by decide
+
+example : (eventStreamImpl repaired (chainWithTrailingSibling 4)).2 = 0 := (event_stream_identity_makes_no_call repaired rfl _).1
+example : (eventStreamImpl unrepaired (chainWithTrailingSibling 4)).2 = 8 := by decide
 
 /-! ## 2b. rendering -/
 
@@ -157,6 +163,8 @@ theorem after_parse_no_tree_object (nm : Names) (h0 : nm.outermostOnly = false) 
 
 /-- a name (12) that is in both tables, closed and left open -/
 def bothNames : Names := { isPre := fun n => n == 12 || n == 6, isSc := fun n => n == 12 || n == 7 }
+/-- the same tables with the `elif` form of `popTag` -/
+def bothNamesElif : Names := { isPre := fun n => n == 12 || n == 6, isSc := fun n => n == 12 || n == 7, scElif := true }
 example : leftover (feedState bothNames 5 [.open 2 false, .open 12 false, .text, .close 12, .open 12 false, .text]) = [] := by decide
 example : (run bothNames 5 initState [.open 2 false, .open 12 false, .text]).1.sc.length = 1 := by decide
 
@@ -171,6 +179,10 @@ theorem pickled_state_has_no_tree_object (cfg : Cfg) (h3 : cfg.dropLinks = true)
   have hp : (feedState nm deep evs).pre.length = 0 := by omega
   have hc : (feedState nm deep evs).sc.length = 0 := by omega
   rw [stateRefs_eq, hs, hp, hc]; simp [h3]
+
+example : stateRefs repaired true (feedState bothNames 3 [.open 12 false, .open 6 false, .text]) = 0 :=
+  pickled_state_has_no_tree_object repaired rfl bothNames rfl rfl 3 _ true
+example : stateRefs unrepaired true (feedState bothNames 3 [.open 12 false, .open 6 false, .text]) = 1 := by decide
 
 /-- Field by field: the mirror of `__getstate__` (copy of `__dict__`, `contents := []`, `markup := decode()`, the four
     links := None, `_most_recent_element` deleted) applied to the `__dict__` of a parsed (and then arbitrarily edited,
@@ -213,14 +225,18 @@ example : pickleDepth repaired bothNames 1000 true (feedState bothNames 1000 [.o
     document from it — whatever the document's shape. (The harness parses under such tables and inspects the real
     `__getstate__()` for tree objects.) -/
 theorem pickle_unbounded_if_container_pop_is_elif (cfg : Cfg) (deep : Nat) (rootLinked : Bool) (l : Loc) :
-    sizeN l.node ≤ pickleDepth cfg { bothNames with scElif := true } deep rootLinked
-      (feedState { bothNames with scElif := true } deep [.open 12 false, .text, .close 12]) l := by
-  have hl : (feedState { bothNames with scElif := true } deep [.open 12 false, .text, .close 12]).sc.length = 1 := by
-    simp [feedState, run, step, pushTag, popToTag, popTo, popTag, popEqPops, closeAll, initState, bothNames]
-  have h : stateRefs cfg rootLinked (feedState { bothNames with scElif := true } deep [.open 12 false, .text, .close 12]) ≠ 0 := by
+    sizeN l.node ≤ pickleDepth cfg bothNamesElif deep rootLinked
+      (feedState bothNamesElif deep [.open 12 false, .text, .close 12]) l := by
+  have hl : (feedState bothNamesElif deep [.open 12 false, .text, .close 12]).sc.length = 1 := by
+    simp [feedState, run, step, pushTag, popToTag, popTo, popTag, popEqPops, closeAll, initState, bothNamesElif]
+  have h : stateRefs cfg rootLinked (feedState bothNamesElif deep [.open 12 false, .text, .close 12]) ≠ 0 := by
     rw [stateRefs_eq, hl]; omega
   simp only [pickleDepth, picklerWalk, h, ↓reduceIte, call]
   omega
+
+example : 6 ≤ pickleDepth repaired bothNamesElif 0 false
+    (feedState bothNamesElif 0 [.open 12 false, .text, .close 12]) (atTop (chainWithTrailingText 5)) :=
+  Nat.le_trans (sizeN_chainTT 5) (pickle_unbounded_if_container_pop_is_elif repaired 0 false (atTop (chainWithTrailingText 5)))
 
 /-! ## 5. text extraction and `.string` -/
 
@@ -244,6 +260,29 @@ theorem depth_bounded_find_all (cfg : Cfg) (h : cfg.stringLoop = true) (q : Quer
   have := searchDepth_le cfg h q (descGenDepth l) (by rw [descGenDepth_eq]; exact Nat.le_refl 2) ((descs l.anc l.node).map (·.node))
   simp only [getattrFindDepth, findDepth, findAllDepth, call]; omega
 
+/-- The `.string` getter is the ONLY tree-dependent call in matching, and it is made exactly for the elements that
+    pass every earlier exit of `matches_tag` (`reachesString`; the correspondence counts the real reads of the
+    property): for any other element the cost of matching does not depend on the variant of the getter at all, for
+    those it is the getter's. -/
+theorem matching_reads_string_only_where_reached (cfg : Cfg) (q : Query) (t : Node) :
+    (reachesString q t = false → matchesTagDepth cfg q t ≤ 5) ∧
+    (reachesString q t = true → matchesTagDepth cfg q t = call (max (call cRuleMatch) (max (stringDepth cfg t) (call cRuleMatch)))) := by
+  cases t with
+  | str v => simp [reachesString, matchesTagDepth]
+  | tag n a kx v ks =>
+    simp only [reachesString, matchesTagDepth, call, cRuleMatch]
+    constructor
+    · intro h
+      repeat' split
+      all_goals first | omega | simp_all
+    · intro h
+      repeat' split
+      all_goals first | rfl | simp_all
+
+example : stringReads ⟨some 1, false, false, none, true⟩ demoTree = [] ∧
+    stringReads ⟨none, true, true, none, true⟩ demoTree = [2, 3, 4] ∧
+    stringReads ⟨some 5, false, false, none, true⟩ demoTree = [4] := by decide
+
 /-- the other axes (`find_parents`, `find_all_next`, `find_all_previous`, `find_next_siblings`,
     `find_previous_siblings`, singular forms): for ANY list of visited elements -/
 theorem depth_bounded_find_axis (cfg : Cfg) (h : cfg.stringLoop = true) (q : Query) (vis : List Node) :
@@ -254,38 +293,62 @@ theorem depth_bounded_find_axis (cfg : Cfg) (h : cfg.stringLoop = true) (q : Que
 example : findAllDepth repaired ⟨some 1, false, false, none, true⟩ (atTop (pureChain 6)) = 10 := by decide
 example : findAxisDepth repaired ⟨none, true, true, some 0, true⟩ [pureChain 4, pureChain 3, .str 1] ≤ 11 := depth_bounded_find_axis _ rfl _ _
 
-/-! ## 7. editing -/
+/-! ## 7. editing
+
+    `ts` is what one "are these two elements the same object?" test costs (`index`, `replace_with`, `insert_before`/
+    `insert_after`, `_insert`); the code uses `is` — `idTest`, a `FreeTest`. -/
 
 /-- `index`, `extract`, `decompose`, `clear` (both forms) -/
-theorem depth_bounded_remove (l : Loc) (dec : Bool) :
-    indexDepth l.sibs ≤ 1 ∧ extractDepth l ≤ 2 ∧ decomposeDepth l ≤ 3 ∧ clearDepth l dec ≤ 4 := by
-  have h := loopMax_le (kidLocs l) (fun k => if dec then decomposeDepth k else extractDepth k) 3
-    (fun k _ => by simp only [decomposeDepth_eq, extractDepth_eq]; split <;> omega)
-  simp only [indexDepth_eq, extractDepth_eq, decomposeDepth_eq, clearDepth, call] at h ⊢
+theorem depth_bounded_remove (ts : Test) (hT : FreeTest ts) (l : Loc) (dec : Bool) :
+    indexDepth ts l.sibs l.node ≤ 1 ∧ extractDepth ts l ≤ 2 ∧ decomposeDepth ts l ≤ 3 ∧ clearDepth ts l dec ≤ 4 := by
+  have h := loopMax_le (kidLocs l) (fun k => if dec then decomposeDepth ts k else extractDepth ts k) 3
+    (fun k _ => by simp only [decomposeDepth_eq ts hT, extractDepth_eq ts hT]; split <;> omega)
+  simp only [indexDepth_eq ts hT, extractDepth_eq ts hT, decomposeDepth_eq ts hT, clearDepth, call] at h ⊢
   omega
 
 /-- `insert` (any number of arguments, also a BeautifulSoup object), `append`, `extend` -/
-theorem depth_bounded_insert (l : Loc) (args : List Loc) (a : Loc) (isDoc : Bool) :
-    insertDepth l args isDoc ≤ 7 ∧ appendDepth l a isDoc ≤ 8 ∧ extendDepth l args ≤ 9 := by
-  have h := loopMax_le args (fun a => appendDepth l a false) 8 (fun a _ => appendDepth_le l a false)
-  refine ⟨insertDepth_le l args isDoc, appendDepth_le l a isDoc, ?_⟩
+theorem depth_bounded_insert (ts : Test) (hT : FreeTest ts) (l : Loc) (args : List Loc) (a : Loc) (isDoc : Bool) :
+    insertDepth ts l args isDoc ≤ 7 ∧ appendDepth ts l a isDoc ≤ 8 ∧ extendDepth ts l args ≤ 9 := by
+  have h := loopMax_le args (fun a => appendDepth ts l a false) 8 (fun a _ => appendDepth_le ts hT l a false)
+  refine ⟨insertDepth_le ts hT l args isDoc, appendDepth_le ts hT l a isDoc, ?_⟩
   simp only [extendDepth, call]; omega
 
 /-- `replace_with`, `wrap`, `unwrap`, `insert_before` / `insert_after`, the `string` setter -/
-theorem depth_bounded_replace (parent l wrapper : Loc) (args : List Loc) :
-    replaceWithDepth parent l args ≤ 8 ∧ wrapDepth parent l wrapper ≤ 9 ∧ unwrapDepth parent l ≤ 8 ∧
-    insertBesideDepth parent l args ≤ 8 ∧ stringSetDepth l ≤ 9 := by
-  have h1 := replaceWithDepth_le parent l args
-  have h2 := replaceWithDepth_le parent l [wrapper]
-  have h3 := appendDepth_le wrapper l false
-  have h4 := loopMax_le (kidsOf l.node) (fun k => insertDepth parent [⟨parent.anc, [], k⟩] false) 7
-    (fun k _ => insertDepth_le parent _ false)
-  have h5 := loopMax_le args (fun a => max (extractDepth a) (max (indexDepth l.sibs) (insertDepth parent [a] false))) 7
-    (fun a _ => by have := insertDepth_le parent [a] false; simp only [extractDepth_eq, indexDepth_eq]; omega)
-  have h6 := (depth_bounded_remove l false).2.2.2
-  have h7 := appendDepth_le l ⟨[], [], .str 0⟩ false
-  simp only [wrapDepth, unwrapDepth, insertBesideDepth, stringSetDepth, indexDepth_eq, extractDepth_eq, call, cStrNew] at h5 ⊢
+theorem depth_bounded_replace (ts : Test) (hT : FreeTest ts) (parent l wrapper : Loc) (args : List Loc) :
+    replaceWithDepth ts parent l args ≤ 8 ∧ wrapDepth ts parent l wrapper ≤ 9 ∧ unwrapDepth ts parent l ≤ 8 ∧
+    insertBesideDepth ts parent l args ≤ 8 ∧ stringSetDepth ts l ≤ 9 := by
+  have h1 := replaceWithDepth_le ts hT parent l args
+  have h2 := replaceWithDepth_le ts hT parent l [wrapper]
+  have h3 := appendDepth_le ts hT wrapper l false
+  have h4 := loopMax_le (kidsOf l.node) (fun k => insertDepth ts parent [⟨parent.anc, [], k⟩] false) 7
+    (fun k _ => insertDepth_le ts hT parent _ false)
+  have h5 := loopMax_le args (fun a => max (extractDepth ts a) (max (indexDepth ts l.sibs l.node) (insertDepth ts parent [a] false))) 7
+    (fun a _ => by have := insertDepth_le ts hT parent [a] false; simp only [extractDepth_eq ts hT, indexDepth_eq ts hT]; omega)
+  have h6 := (depth_bounded_remove ts hT l false).2.2.2
+  have h7 := appendDepth_le ts hT l ⟨[], [], .str 0⟩ false
+  have h8 : loopMax args (fun a => ts a.node l.node) = 0 := loopMax_zero _ _ (fun a _ => hT _ _)
+  simp only [wrapDepth, unwrapDepth, insertBesideDepth, stringSetDepth, indexDepth_eq ts hT, extractDepth_eq ts hT, call, cStrNew, h8] at h5 ⊢
   omega
+
+example : insertDepth idTest (atTop (pureChain 3)) [atTop (pureChain 9), ⟨[], [], .str 1⟩] true = 7 := by decide
+example : wrapDepth idTest (atTop (pureChain 2)) (atTop (pureChain 5)) (atTop (pureChain 5)) ≤ 9 :=
+  (depth_bounded_replace idTest idTest_free _ _ _ []).2.1
+example : clearDepth idTest (atTop (chainWithTrailingText 4)) true = 4 := by decide
+
+/-- The bounds DEPEND on the tests being identity tests: written with `==`, `replace_with`'s "replacing an element
+    with itself is a no-op" test walks the element and an equal (or nearly equal) copy of it in lock-step — two
+    frames per level — and so does `index` when an earlier sibling looks like the element searched for. (The harness
+    exercises every editing call with near copies of the receiver as arguments and as siblings.) -/
+theorem editing_with_equality_tests_unbounded (n : Nat) (parent : Loc) (anc anc' : List Bool) (sibs sibs' rest : List Node) :
+    2 * n + 1 ≤ replaceWithDepth eqTest parent ⟨anc, sibs, pureChain n⟩ [⟨anc', sibs', pureChain n⟩] ∧
+    2 * n + 1 ≤ indexDepth eqTest (pureChain n :: rest) (pureChain n) := by
+  have h := eqDepth_pureChain_self n
+  constructor
+  · simp only [replaceWithDepth, List.take, loopMax, eqTest, call]; omega
+  · simp only [indexDepth, loopMax, eqTest, call]; omega
+
+example : replaceWithDepth eqTest (atTop (pureChain 1)) (atTop (pureChain 20)) [atTop (pureChain 20)] = 46 := by decide
+example : replaceWithDepth idTest (atTop (pureChain 1)) (atTop (pureChain 20)) [atTop (pureChain 20)] = 6 := by decide
 
 /-- `smooth` iterating over the descendants -/
 theorem depth_bounded_smooth (cfg : Cfg) (h : cfg.smoothLoop = true) (l : Loc) : smoothDepth cfg l ≤ 10 := by
@@ -294,7 +357,7 @@ theorem depth_bounded_smooth (cfg : Cfg) (h : cfg.smoothLoop = true) (l : Loc) :
   simp only [smoothDepth, h, ↓reduceIte, descGenDepth_eq, call] at h1 ⊢
   omega
 
-example : extractDepth (atTop (chainWithTrailingText 9)) = 2 := by decide
+example : extractDepth idTest (atTop (chainWithTrailingText 9)) = 2 := by decide
 example : smoothDepth repaired (atTop (pureChain 5)) ≤ 10 := depth_bounded_smooth _ rfl _
 example : smoothDepth repaired (atTop (pureChain 2)) = 8 := by decide
 
@@ -435,5 +498,7 @@ theorem handled_beyond_the_recursion_limit (cfg : Cfg) (h1 : cfg.neIdentity = tr
   · have := depth_bounded_pickle cfg h1 h2 h3 shippedNames rfl rfl deep evs lk l; omega
 
 example : parseDepth shippedNames 7 [.open 6 false, .open 9 false, .open 12 false, .text, .close 6] = 14 := by decide
+example : copyDepth repaired true (atTop (chainWithTrailingText 40)) + callerFrames < BS.Gen.c11RecursionLimit :=
+  (handled_beyond_the_recursion_limit repaired rfl rfl rfl 0 [] true false _).2.2.1
 
 end BS.Props.C11
